@@ -254,6 +254,14 @@ def shadow_run(tier='quick'):
     return _pack('gvc.shadow', [r], t0, samples=[dict(obligation='no literal alternative of an ordered choice is shadowed by an earlier prefix', alts_checked=r['checked'])])
 
 
+def kwsites_run(tier='quick'):
+    from . import analyses as A
+    t0 = time.time()
+    fns, table, comb = collect()
+    r = A.kwsites_check(fns)
+    return _pack('gvc.kwsites', [r], t0, samples=[dict(obligation='begin_keywords(<literal>) names a keyword set; macro names under "directive"', sites_checked=r['checked'])])
+
+
 def pptotal_run(tier='quick'):
     from . import analyses as A
     t0 = time.time()
